@@ -9,8 +9,14 @@ Anchors (cfdm/functions.py, cfdm/decorators.py, cfdm/constants.py):
   Constant.__exit__                   → `exitConst`
   _configuration (with rollback)      → `cfgCall`, `cfgLoop`, `rollback`
   Configuration.__exit__              → `exitCfg`
-  _manage_log_level_via_verbosity     → `decoNew` (the code after fixes/C20-verbose-scope.patch)
-                                        `decoOld` (the code as it is in 1.11.2.0, with the `calls[0]` counter)
+  _manage_log_level_via_verbosity     → `decoOld` (the code as it is in 1.11.2.0, with the `calls[0]` counter)
+                                        `decoMid` (the code after fixes/C20-verbose-scope.patch: validation
+                                                   before the counter, a nested call puts back what it found;
+                                                   the outermost exit is unchanged)
+                                        `decoNew` (what the property demands of every call; the code after
+                                                   fixes/C20-verbose-scope-full.patch, which needs an edited test)
+  (the helpers `_disable_logging`, `_is_valid_log_level_int`, `_reset_log_emergence_level`, `log_level._parse`
+   are modelled step by step in Model/SettingsFine.lean and proved to refine the definitions used here)
   Container._equals (tolerances)      → `eqResult`
 
 Programs are well-nested trees (`Prog`); `runWith d` is their big-step semantics for a
@@ -68,7 +74,7 @@ structure State where
 /-- State right after `import cfdm`. -/
 def State.init : State := { atol := 0, rtol := 0, level := .WARNING, root := 30, disable := 0, calls := 0 }
 
-inductive Exc | ValueError | TypeError | KeyError
+inductive Exc | ValueError | TypeError | KeyError | AttributeError
   deriving DecidableEq, Repr
 
 inductive Outcome | ok | raised (e : Exc)
@@ -281,6 +287,41 @@ def decoOld : Deco where
       if s1.level = .DISABLE ∧ fr.verbose ≠ some .DISABLE then { s1 with disable := critical } else s1
     else s0
 
+/-- The decorator after `fixes/C20-verbose-scope.patch` (the repair that passes the unedited test
+suite): `verbose` is validated *before* the counter is incremented and before anything is changed;
+the logging state found on entry is remembered; a call that finishes *inside* another decorated
+call (counter still positive) puts back exactly what it found (and follows the global level if
+the wrapped call itself changed it); the outermost call (counter back to zero) does what 1.11.2.0
+does — including the lift of the deactivation for `verbose=0`, which `test_decorators.py` pins. -/
+def decoMid : Deco where
+  enter v s :=
+    match v.resolve with
+    | .error e => (.error e, s)
+    | .ok lv =>
+      let s0 := { s with calls := s.calls + 1 }
+      match lv with
+      | none => (.ok (frameOf none s0), s0)
+      | some l =>
+        let s1 := resetEmergence l s0
+        -- if log_level() == "DISABLE" and verbose not in (0, None): _disable_logging("NOTSET")
+        let s2 := if s1.level = .DISABLE ∧ l ≠ .DISABLE then { s1 with disable := 0 } else s1
+        (.ok (frameOf (some l) s0), s2)
+  exit fr s :=
+    let s0 := { s with calls := s.calls - 1 }
+    if s0.calls = 0 then
+      let s1 :=
+        match fr.verbose with
+        | some .DISABLE => { s0 with disable := 0 }            -- verbose == 0
+        | some _ => resetEmergence s0.level s0                 -- valid, non-zero
+        | none => s0
+      if s1.level = .DISABLE ∧ fr.verbose ≠ some .DISABLE then { s1 with disable := critical } else s1
+    else
+      match fr.verbose with
+      | none => s0
+      | some _ =>
+        let s1 := { s0 with root := fr.root, disable := fr.disable }
+        if s0.level ≠ fr.level then resetEmergence s0.level s1 else s1
+
 /-- Specification device: a decorator that only validates `verbose` and otherwise does nothing. -/
 def decoIgnore : Deco where
   enter v s :=
@@ -321,6 +362,9 @@ inductive Prog
   | try_ (body : Prog)                      -- try: body  except Exception: pass
   | raise (e : Exc)
   | eq (r a : Option Nat) (m : Nat)         -- Data.equals(other, rtol=r, atol=a)
+  | verdict (r a : Option Nat) (m : Nat)
+      -- the truth value an equality test with these tolerance arguments returns; the call that
+      -- produced it (a decorated cfdm `equals` with its own nested calls) is the `real` that follows
   deriving Repr
 
 /-- One decorated call around an arbitrary computation. -/
@@ -366,9 +410,11 @@ def runWith (d : Deco) : Prog → State → State × Outcome
   | .try_ body, s => ((runWith d body s).1, .ok)
   | .raise e, s => (s, .raised e)
   | .eq _ _ _, s => decorated d .none (fun s1 => (s1, .ok)) s      -- Data.equals is itself decorated
+  | .verdict _ _ _, s => (s, .ok)
 
 def run := runWith decoNew
 def runOld := runWith decoOld
+def runMid := runWith decoMid
 
 /-! ### Observation -/
 
@@ -392,6 +438,7 @@ instance (s : State) : Decidable (Consistent s) := by unfold Consistent; infer_i
 
 def Exc.show : Exc → String
   | .ValueError => "ValueError" | .TypeError => "TypeError" | .KeyError => "KeyError"
+  | .AttributeError => "AttributeError"
 
 def Outcome.show : Outcome → String
   | .ok => "ok" | .raised e => "raised:" ++ e.show
@@ -448,6 +495,7 @@ def traceWith (d : Deco) : Prog → State → List String
   | .eq r a m, s =>
     let res := runWith d (.eq r a m) s
     [ev ("eq=" ++ (if eqResult r a m s then "T" else "F")) res.1]
+  | .verdict r a m, s => [ev ("eq=" ++ (if eqResult r a m s then "T" else "F")) s]
 
 /-- Whole program, with the final observation. -/
 def fullTrace (d : Deco) (p : Prog) (s : State) : List String :=
